@@ -25,7 +25,13 @@ code) and `reconstruct-full` (the WHOLE reconstruction from stack + mask pixels 
 Histories contain REJECTED / RAISING calls (bad arguments; faults injected into `_return_kernel_contributions` / `ifft2`
 part-way; RuntimeError, MemoryError, KeyboardInterrupt) which the caller catches before carrying on, masks are handed over
 through one buffer object rewritten in place (torch or NumPy), overrides through one dict object, complementary sub-masks and
-repeated fixed-value grid searches occur inside one history; recombination streams both parts through one buffer."""
+repeated fixed-value grid searches occur inside one history; recombination streams both parts through one buffer.
+
+Growth round 6: `c04_r6.py` adds FIXED blocks (rotation in every quadrant / beyond +-pi / 2 pi, H != W detectors and scans in both
+orientations, NumPy roll oracle at every multiple of pi/2, two live objects with different hyper-parameters, full / sub /
+complement / checkerboard half-set masks on one object, num_bf = 289, max_batch_size at and beyond every threshold);
+Model/DirectHalfsets.lean + Props/C04Ext.lean model and prove the half-set split; Lemmas/DirectPtychoDft.lean + Props/C04Dft.lean
+prove the two DFT identities for the executable list DFT, so the two parallax limits are theorems about the whole model."""
 import math
 
 import numpy as np
@@ -33,7 +39,8 @@ import numpy as np
 from . import c04_r6
 
 LEVEL = "proof"
-EXTRA_PROPS = ["QuantemModel.Props.C04Ext"]   # growth 6: half-set masks (split + bf context + recombination, end to end)
+EXTRA_PROPS = ["QuantemModel.Props.C04Ext",   # growth 6: half-set masks (split + bf context + recombination, end to end)
+               "QuantemModel.Props.C04Dft"]   # growth 6: the two DFT identities for the list DFT; parallax limits, whole reconstruction
 MANIFEST_ENTRY = {
     "category": "proof",
     "text": "Lean 4 theorems over an executable model of DirectPtychography.reconstruct: the streaming skeleton "
@@ -50,14 +57,23 @@ MANIFEST_ENTRY = {
             "aperture weight = aperture^2 in [0,1], independent of the aberrations; parallax_gradient_eq_shift (grad_k of the "
             "translated source = 2 pi x the geometric shift, for every pixel / rotation / first-order coefficient set; 0 without "
             "coefficients); prlx_operator_is_translation; the two parallax limits per pixel for the whole model "
-            "(parallax_shift_full_partial / parallax_zero_full_partial) given two DFT identities; HyperparameterState history "
+            "(parallax_shift_full_partial / parallax_zero_full_partial) given two DFT identities; growth 6: BOTH DFT identities are "
+            "proved for the model's executable FFT pair Fourier.dft (fft_pair_inverts: ifft2(fft2 x) = x from roots-of-unity "
+            "orthogonality; fft_pair_comb_identity: DC bin = N*mean and u x u tiled spectrum = spectrum of the zero-interleaved image, "
+            "all u, r, c), hence parallax_zero_full (corrected_bf of the whole model, any valid schedule = sum of the mean-subtracted "
+            "virtual images / total aperture weight) and parallax_shift_full (corrected_bf = prlxClosed, the closed form the driver "
+            "evaluates: images translated by the geometric shift of their detector pixel / W) with NO hypothesis on the FFT pair; "
+            "half-set masks (_make_checkerboard_bf_masks + the two _return_bf_context calls of _reconstruct_with_halfsets): any split "
+            "of the mask gives two sub-masks whose stack rows are a permutation of all rows (split_rows_complementary), and "
+            "halfsets_recombine composes split + bf context + streaming core; HyperparameterState history "
             "theorems. Tied to the code on every run by the translator, by Float correspondence (captured factors AND the whole "
             "reconstruction from stack + mask + hyper-parameters alone, real reconstruct(max_batch_size=b) for EVERY b) and by the "
             "property predicates evaluated on the real code, incl. call histories with REJECTED / RAISING calls (bad arguments, "
             "faults injected into callees part-way) and argument objects reused and rewritten in place.",
-    "note": "Partial: the parallax limits are proved per pixel under two DFT identities taken as hypotheses on the FFT pair (DC bin = "
-            "N*mean and tiled spectrum = zero-interleaved image; ifft2 after fft2 = id) - the full closed forms are measured against "
-            "the real code on every run; float32 evaluation of the "
+    "note": "The parallax limits are proved for the model over the reals (exact DFT, first-order coefficient sets, no sign flip, no "
+            "filter), as the statement gives them; that torch.fft computes the DFT sums and the float32 evaluation stay measured "
+            "(closed form vs the real code on every run, incl. fixed blocks at rotations in every quadrant / beyond pi, H != W, "
+            "num_bf = 289, two live objects); float32 evaluation of the "
             "formulas (hard aperture edge, sign(sin chi) near zeros, gamma/|gamma| for tiny gamma) is measured with those grid "
             "points masked and counted; float32 summation order is measured (batch-invariance tolerance 1e-5 relative, times the "
             "parallax phase conditioning), not proved. The property does not state the kernel formulas: a changed formula that keeps "
@@ -71,7 +87,8 @@ RULE = ("one case = one synthetic problem (detector grid, construction mask, sub
         "aberrations, rotation, kernel alias, upsampling, filters, stack) evaluated for every batch size; distinct non-trivial = "
         "distinct (kernel, upsampling, num_bf, scan shape parity/squareness, sub-mask?, aberration kind, rotation?, filters?, crop?) "
         "with num_bf >= 2")
-TRUSTED = ["torch.fft.fft2/ifft2 compute the defining DFT sums (the model's executable Fourier instance, proved linear); measured by every Float stream",
+TRUSTED = ["torch.fft.fft2/ifft2 compute the defining DFT sums (the model's executable Fourier instance, proved linear, inverting and "
+           "satisfying the comb identity: Lemmas/DirectPtychoDft.lean); measured by every Float stream",
            "the translator harness/translator/dpkernel2lean.py (element-wise reading of broadcasting / indexing plumbing: kxa[ind_i, ind_j], "
            "x[bf_mask], .view/.unsqueeze, .sum(0) over the batch, .sum() over the mask, x[0,0]=c, power.max()); cross-checked on every run by "
            "the kernel-full and reconstruct-full Float streams on the very functions it translates",
@@ -79,7 +96,16 @@ TRUSTED = ["torch.fft.fft2/ifft2 compute the defining DFT sums (the model's exec
            "the Butterworth envelope of the real call is not observable on its own: the model's (translated) envelope is compared with the "
            "harness's float64 formula and through the end-to-end reconstruction",
            "Python str.lower() vs ASCII lowering in the model: no alias contains a letter that a non-ASCII character lowers to"]
-ASSUMPTIONS = ["sub-masks are subsets of the construction mask (the property's quantifier); batch indices are in range",
+ASSUMPTIONS = ["round-6 fixed blocks (c04_r6.py, independent of VERIF_SEED): 6 complete problems (rotation 2.2 / -2.2 / -0.9 / 3.9 / -4.4 / 7.0 rad, "
+               "detectors 5x8, 8x5, 6x7, 7x5, 8x6, scans with r<c and r>c, NumPy roll oracle at rotations pi, -pi/2, 3pi/2); two live "
+               "objects on one geometry with different hyper-parameters called alternately with full / sub / complement / checkerboard "
+               "half-set masks (parallax judged by the NumPy roll oracle, other kernels by a fresh object); num_bf = 289 and a 196-row "
+               "sub-mask with max_batch_size at 16, 17, 127, 128, 144, 255, 256, n-1, n, n+1, 2n+1; every main-loop problem also runs "
+               "max_batch_size = n+1 and 2n+3",
+               "the private half-set helpers (_make_checkerboard_bf_masks, _reconstruct_with_halfsets) are internal stages: compared with "
+               "the Lean model halfsetContexts / the oracle when present in their known form, skipped with a note otherwise; the "
+               "predicates judge only public reconstruct() calls before and after",
+               "sub-masks are subsets of the construction mask (the property's quantifier); batch indices are in range",
                "for upsampling u>1 the parallax closed form places the scan images on every u-th point of the finer grid "
                "(what Fourier tiling means in real space); for u=1 it is literally the statement",
                "crop_bf_mask=True is exercised with symmetric and asymmetric masks and paddings 0..2 (sub-masks are given on the cropped "
